@@ -295,6 +295,33 @@ def revStrandExtract (P : Str) (alph : List Char) (l : Location) : R Str := do
   let r ← reverseStrand l
   extract P alph r
 
+/-- identity-like re-constructions of a location (each builds a NEW location object in the library) -/
+inductive Xform where
+  | resetStrand (s : Strand)      -- `reset_strand(s)`
+  | rev2                          -- `reverse_strand().reverse_strand()`
+  | resetParent                   -- `reset_parent(same parent)`
+  | optimize                      -- `optimize_blocks()`
+  | shift0                        -- `shift_position(0)`
+  deriving Repr
+
+/-- the re-constructed location (on the root parent) -/
+def xform (P : Str) : Xform → Location → R Location
+  | .resetStrand s, l => resetStrand l s
+  | .rev2, .empty => pure .empty                       -- `_EmptyLocation.reverse_strand` returns self
+  | .rev2, l => do let r ← reverseStrand l; reverseStrand r
+  | .resetParent, .single b st => mkSingleOn P b.1 b.2 st
+  | .resetParent, .compound c => mkCompoundOn P c.blocks c.strand
+  | .resetParent, .empty => throw .EmptyLocation
+  | .optimize, l => optimizeBlocks l
+  | .shift0, .single b st => mkSingleOn P ((b.1 : Int) + 0) ((b.2 : Int) + 0) st
+  | .shift0, .compound c => mkCompoundOn P c.blocks c.strand
+  | .shift0, .empty => throw .EmptyLocation
+
+/-- the re-constructed location and the answer of its `extract_sequence()` -/
+def xformExtract (P : Str) (alph : List Char) (t : Xform) (l : Location) : R (Location × R Str) := do
+  let r ← xform P t l
+  pure (r, extract P alph r)
+
 /-- sequences of the two halves `relint(l, 0, k, +)` and `relint(l, k, len(l), +)` -/
 def splitExtract (P : Str) (alph : List Char) (l : Location) (k : Int) : R (Str × Str) := do
   let m1 ← relInterval l 0 k .plus
